@@ -230,6 +230,11 @@ Section CDec.
 End CDec.
 
 (* ---------- the frames a decode gets: Python's recursion limit minus the frames already on the
-   stack when deserialize_value is entered (Serializable.loadb adds one) *)
+   stack when deserialize_value is entered (Serializable.loadb adds one).  The fuel of
+   dec_value / decode is this number: one frame per deserialize_value call, one per type function
+   or deserialize method, one for the read of a Python-level stream (a plain io.BytesIO reads in C
+   and needs none: add 1 to the fuel).  CPython 3.12 also limits C-level recursion: about 747
+   nested Serializable / SerializableEnum instances raise the same RecursionError whatever the
+   limit; the single fuel is exact while limit - depth <= 1400 (the default limit is 1000). *)
 Definition frames_available (recursion_limit caller_depth : Z) : nat :=
   Z.to_nat (recursion_limit - caller_depth).
